@@ -22,15 +22,6 @@ def showKind : EvKind → String
   | .birt => "BIRT" | .bapm => "BAPM" | .bapl => "BAPL" | .deat => "DEAT"
   | .buri => "BURI" | .marr => "MARR" | .other => "OTHER"
 
-/-- what `NewDateRangeWithString` made of the value, sorted into the model's three shapes -/
-def classifyDate (r : DateRange) : DateV :=
-  let s := r.start
-  let e := r.end_
-  if s == e && !s.parseError && s.constraint == .exact && s.day != 0 && s.month != 0 &&
-      decide (1 ≤ s.year) && decide (s.year ≤ 9999) then .ok ⟨s.day, s.month, s.year⟩
-  else if s.parseError && e.parseError && s.isZero && e.isZero then .bad 0
-  else .gen 0 s e
-
 def parseDateV (s : String) : Option DateV :=
   if s.startsWith "h" then (fromHex (s.drop 1).toString).map fun v => classifyDate (parseDateRange v)
   else if s.startsWith "b" then (s.drop 1).toString.toNat?.map DateV.bad
@@ -105,11 +96,6 @@ def showDate : DateV → String
   | .gen _ s e => s!"{s.day}.{s.month}.{s.year}-{e.day}.{e.month}.{e.year}"
 
 /-! labels: every DATE gets its position in the document (records, events, dates in order) -/
-def relabelDate (n : Nat) : DateV → DateV
-  | .ok d => .ok d
-  | .bad _ => .bad n
-  | .gen _ s e => .gen n s e
-
 def relabelDates : Nat → List DateV → List DateV × Nat
   | n, [] => ([], n)
   | n, x :: xs => let (ys, m) := relabelDates (n + 1) xs; (relabelDate n x :: ys, m)
